@@ -44,6 +44,9 @@ operator == (const TaskBase& lhs,
 
 //------------------------------------------------------------------------------
 
+// only the payload-free base is packed: alignas(Payload) below must take effect
+#pragma pack(pop)
+
 template <typename TPayload>
 struct TaskT final
 	: TaskBase
@@ -103,8 +106,6 @@ struct TaskT<void> final
 {
 	using TaskBase::TaskBase;
 };
-
-#pragma pack(pop)
 
 ////////////////////////////////////////////////////////////////////////////////
 
